@@ -27,7 +27,8 @@
 //!
 //! Encoding of the spec's abstract item (p, a, s, t): price = p/4, amount = a/4 (decimal strings or
 //! numbers as the venue sends them), side as the venue states it (sign of the amount for Gate.io
-//! futures and Bitfinex, buyer-is-maker flag for Binance), time = 2020-01-01T00:00:00Z + t * 500 ms.
+//! futures and Bitfinex, buyer-is-maker flag for Binance), time = 2020-01-01T00:00:00Z + t time units (500 ms; 1/64 s on
+//! venues whose format carries sub-millisecond times - see `Route::time_unit_ns`), compared exactly.
 //! L1 books: the side s names the book side that holds (p, a); the other side holds (p+40, a+40), or -
 //! "bid_only" / "ask_only" - is empty (sent as price 0 / amount 0) and must be absent in the event.
 //! L2 updates: one level (p, a) on the bid (buy) or ask (sell) side; update ids follow the
@@ -186,6 +187,23 @@ impl Route {
     /// does the venue's message state an exchange time? (Binance spot book ticker does not)
     fn carries_time(&self) -> bool {
         !(self.ex == "binance_spot" && self.sk == SK::L1)
+    }
+    /// The time unit of the route: the spec's time t is the instant epoch + t units.  Venues state
+    /// times with the full precision their wire format carries, and the event must carry exactly
+    /// the stated instant (compared in nanoseconds):
+    ///   * integer milliseconds (Binance "T"/"E", OKX "ts", Bybit "T", Gate.io futures
+    ///     "create_time_ms", Bitfinex MTS) and BitMEX's RFC 3339 with milliseconds
+    ///     ("2023-02-18T09:27:59.701Z"): unit 500 ms;
+    ///   * sub-millisecond formats - Kraken seconds with six decimals ("1534614057.321597"),
+    ///     Coinbase RFC 3339 with microseconds ("2014-11-07T08:19:27.028459Z"), Gate.io spot
+    ///     milliseconds with four decimals ("1606292218213.4578"): unit 1/64 s = 15.625 ms, so the
+    ///     stated instants have a non-zero sub-millisecond part (625 / 250 / 875 us ..) and are exact
+    ///     in the f64 the connectors parse seconds / milliseconds into.
+    fn time_unit_ns(&self) -> i64 {
+        match self.fam {
+            Fam::Kraken | Fam::Coinbase | Fam::GateioSpot => 15_625_000,
+            _ => 500_000_000,
+        }
     }
     /// can one venue message carry several items?
     fn array(&self) -> bool {
@@ -661,8 +679,10 @@ impl Item {
         };
         json!({"p": self.p, "a": self.a, "s": s, "t": self.t})
     }
-    fn ms(&self) -> i64 {
-        epoch_ms() + self.t * 500
+    /// the instant the venue states for this item, in ns since the Unix epoch: the epoch of the
+    /// harness + t time units of the route (see `Route::time_unit_ns`)
+    fn ns(&self, route: &Route) -> i64 {
+        epoch_ms() * 1_000_000 + self.t * route.time_unit_ns()
     }
 }
 
@@ -673,11 +693,12 @@ fn q2(v: i64) -> String {
 fn qf(v: i64) -> f64 {
     v as f64 / 4.0
 }
-fn rfc3339(ms: i64, frac: &str) -> String {
-    DateTime::<Utc>::from_timestamp_millis(ms).unwrap().format(&format!("%Y-%m-%dT%H:%M:%S{frac}Z")).to_string()
+fn rfc3339(ns: i64, frac: &str) -> String {
+    DateTime::<Utc>::from_timestamp_nanos(ns).format(&format!("%Y-%m-%dT%H:%M:%S{frac}Z")).to_string()
 }
-fn secs_str(ms: i64) -> String {
-    format!("{}.{:06}", ms / 1000, (ms % 1000) * 1000)
+/// seconds with six decimals (Kraken: "1534614057.321597")
+fn secs_str(ns: i64) -> String {
+    format!("{}.{:06}", ns / 1_000_000_000, (ns % 1_000_000_000) / 1000)
 }
 
 /// A market as the venue lists it: the channel and the symbol it echoes in data messages.
@@ -813,7 +834,9 @@ fn l1_levels(it: &Item) -> (i64, i64, i64, i64) {
 /// `seq`: last update id of the market's L2 stream; `chan`: Bitfinex channel id; `n`: message counter.
 fn payload(route: &Route, mk: &Listed, items: &[Item], seq: u64, chan: u32, n: u64) -> String {
     let it = &items[0];
-    let ms = it.ms();
+    let ns = |x: &Item| x.ns(route);
+    let msx = |x: &Item| x.ns(route) / 1_000_000;
+    let ms = msx(it);
     let echo = mk.echo.as_str();
     let ch = mk.channel.as_str();
     let side_lc = |x: &Item| if x.buy { "buy" } else { "sell" };
@@ -848,45 +871,45 @@ fn payload(route: &Route, mk: &Listed, items: &[Item], seq: u64, chan: u32, n: u
         (Fam::Kraken, SK::Trades) => {
             let trades: Vec<Value> = items
                 .iter()
-                .map(|x| json!([format!("{}000", q2(x.p)), format!("{}000000", q2(x.a)), secs_str(x.ms()), if x.buy { "b" } else { "s" }, "l", ""]))
+                .map(|x| json!([format!("{}000", q2(x.p)), format!("{}000000", q2(x.a)), secs_str(ns(x)), if x.buy { "b" } else { "s" }, "l", ""]))
                 .collect();
             json!([0, trades, ch, echo])
         }
         (Fam::Kraken, SK::L1) => {
             let (bp, ba, ap, aa) = l1_levels(it);
-            json!([0, [format!("{}000", q2(bp)), format!("{}000", q2(ap)), secs_str(ms), format!("{}000000", q2(ba)), format!("{}000000", q2(aa))], ch, echo])
+            json!([0, [format!("{}000", q2(bp)), format!("{}000", q2(ap)), secs_str(ns(it)), format!("{}000000", q2(ba)), format!("{}000000", q2(aa))], ch, echo])
         }
         (Fam::Okx, SK::Trades) => {
             let data: Vec<Value> = items
                 .iter()
                 .enumerate()
-                .map(|(j, x)| json!({"instId": echo, "tradeId": (n * 10 + j as u64).to_string(), "px": q2(x.p), "sz": q2(x.a), "side": side_lc(x), "ts": x.ms().to_string()}))
+                .map(|(j, x)| json!({"instId": echo, "tradeId": (n * 10 + j as u64).to_string(), "px": q2(x.p), "sz": q2(x.a), "side": side_lc(x), "ts": msx(x).to_string()}))
                 .collect();
             json!({"arg": {"channel": ch, "instId": echo}, "data": data})
         }
         (Fam::Coinbase, SK::Trades) => json!({
             "type": "match", "trade_id": n, "sequence": n + 50, "maker_order_id": "ac928c66-ca53-498f-9c13-a110027a60e8",
-            "taker_order_id": "132fb6ae-456b-4654-b4e0-d681ac05cea1", "time": rfc3339(ms, "%.6f"), "product_id": echo,
+            "taker_order_id": "132fb6ae-456b-4654-b4e0-d681ac05cea1", "time": rfc3339(ns(it), "%.6f"), "product_id": echo,
             "size": q2(it.a), "price": q2(it.p), "side": side_lc(it)}),
         (Fam::Bybit, SK::Trades) => {
             let data: Vec<Value> = items
                 .iter()
                 .enumerate()
-                .map(|(j, x)| json!({"T": x.ms(), "s": echo, "S": side_cap(x), "v": q2(x.a), "p": q2(x.p), "L": "PlusTick",
+                .map(|(j, x)| json!({"T": msx(x), "s": echo, "S": side_cap(x), "v": q2(x.a), "p": q2(x.p), "L": "PlusTick",
                                      "i": format!("20f43950-d8dd-5b31-9112-{:012}", n * 10 + j as u64), "BT": false}))
                 .collect();
             json!({"topic": format!("{ch}.{echo}"), "type": "snapshot", "ts": ms, "data": data})
         }
         (Fam::GateioSpot, SK::Trades) => json!({
             "time": ms / 1000, "time_ms": ms + 3, "channel": ch, "event": "update",
-            "result": {"id": n, "create_time": ms / 1000, "create_time_ms": format!("{ms}.0"), "side": side_lc(it),
+            "result": {"id": n, "create_time": ms / 1000, "create_time_ms": format!("{}.{:04}", ms, (ns(it) % 1_000_000) / 100), "side": side_lc(it),
                        "currency_pair": echo, "amount": q2(it.a), "price": q2(it.p)}}),
         (Fam::GateioFut, SK::Trades) => {
             let data: Vec<Value> = items
                 .iter()
                 .enumerate()
-                .map(|(j, x)| json!({"size": if x.buy { qf(x.a) } else { -qf(x.a) }, "id": n * 10 + j as u64, "create_time": x.ms() / 1000,
-                                     "create_time_ms": x.ms(), "price": q2(x.p), "contract": echo}))
+                .map(|(j, x)| json!({"size": if x.buy { qf(x.a) } else { -qf(x.a) }, "id": n * 10 + j as u64, "create_time": msx(x) / 1000,
+                                     "create_time_ms": msx(x), "price": q2(x.p), "contract": echo}))
                 .collect();
             json!({"time": ms / 1000, "time_ms": ms + 3, "channel": ch, "event": "update", "result": data})
         }
@@ -894,7 +917,7 @@ fn payload(route: &Route, mk: &Listed, items: &[Item], seq: u64, chan: u32, n: u
             let data: Vec<Value> = items
                 .iter()
                 .enumerate()
-                .map(|(j, x)| json!({"timestamp": rfc3339(x.ms(), "%.3f"), "symbol": echo, "side": side_cap(x), "size": qf(x.a), "price": qf(x.p),
+                .map(|(j, x)| json!({"timestamp": rfc3339(ns(x), "%.3f"), "symbol": echo, "side": side_cap(x), "size": qf(x.a), "price": qf(x.p),
                                      "tickDirection": "MinusTick", "trdMatchID": format!("31e50cb7-e005-a44e-f354-{:012}", n * 10 + j as u64),
                                      "grossValue": 814184, "homeNotional": 0.00814184, "foreignNotional": 200, "trdType": "Regular"}))
                 .collect();
@@ -1168,8 +1191,12 @@ where
                         err(format!("event kind time {:?} differs from time_exchange {}", inner, ev.time_exchange))
                     } else {
                         let t = if route.carries_time() {
-                            let d = ev.time_exchange.timestamp_millis() - epoch_ms();
-                            if d % 500 == 0 && ev.time_exchange.timestamp_subsec_nanos() % 1_000_000 == 0 { json!(d / 500) } else { json!(format!("not-a-half-second:{}", ev.time_exchange)) }
+                            // exact, in nanoseconds: the event's instant must be the stated one
+                            let d = ev.time_exchange.timestamp_nanos_opt().map(|n| n - epoch_ms() * 1_000_000);
+                            match d {
+                                Some(d) if d % route.time_unit_ns() == 0 => json!(d / route.time_unit_ns()),
+                                _ => json!(format!("not-a-stated-instant:{}", ev.time_exchange.format("%Y-%m-%dT%H:%M:%S%.9fZ"))),
+                            }
                         } else {
                             json!(0)
                         };
